@@ -157,6 +157,29 @@ pub fn write_fasta(path: &Path, names: &[String], records: &[Vec<u8>], width: Op
     std::fs::write(path, s).expect("write fasta");
 }
 
+/// rewrite a text file with Windows line endings
+pub fn to_crlf(path: &Path) {
+    let data = std::fs::read(path).expect("read");
+    let mut out = Vec::with_capacity(data.len() + data.len() / 40);
+    for b in data {
+        if b == b'\n' {
+            out.push(b'\r');
+        }
+        out.push(b);
+    }
+    std::fs::write(path, out).expect("write");
+}
+
+/// a pre-existing, long output file: anything left of it after a command wrote its output with -o
+/// shows up as extra records (outputs must replace the file, not overwrite its beginning)
+pub fn plant_stale_output(path: &Path) {
+    let mut s = String::with_capacity(400_000);
+    for i in 0..2000 {
+        s += &format!(">stale_{i}\nNNNNNNNNNNNNNNNNNNNNNNNNNNNNNNNNNNNNNNNNNNNNNNNNNNNNNNNNNNNNNNNNNNNNNNNNNNNNNNNNNNNNNNNNNNNNNNNNNNNNNNNNNNNNNNNNNNNNNNNNNNNNNNNNNNNNNNNNNNNNNNNNNNNNNNNNNNNNNNNNNNNNNNNNNNNNNNNNNNNNNNNNNNNN\nstale\t{i}\t.\tA\tC\t.\t.\t.\tGT\t1\n");
+    }
+    std::fs::write(path, s).expect("write stale file");
+}
+
 pub fn write_fasta_auto(path: &Path, records: &[Vec<u8>], width: Option<usize>) {
     let names: Vec<String> = (0..records.len()).map(|i| format!("r{i}")).collect();
     write_fasta(path, &names, records, width);
